@@ -175,7 +175,7 @@ impl Prop for C02 {
                 out.count("gen.cr-line-endings");
                 check_rescan(&mut out, &format!("{}+cr-endings", w.name), &text, &cfg);
             }
-            if k == 0 && idx < 2 && ok {
+            if out.sample.is_none() && idx < 32 && ok {
                 out.sample = Some(json!({"source": w.name, "config": cfg.short(), "input": short(&w.text, 300)}));
             }
         }
